@@ -159,6 +159,9 @@ def interpret_evaluator(chk, fi: FuncInfo, kind: str, model_key: str) -> Dict[st
         res = Function(fi.node, env, it)(*args)
     except InterpRaised as e:
         return {"raises": e.exc_name}
+    from engine.pyinterp import Record
+    if isinstance(res, Record) and len(list(res._values())) == 4:
+        res = tuple(res._values())     # a NamedTuple / record of the four arrays unpacks like the plain tuple
     if not (isinstance(res, tuple) and len(res) == 4):
         return {"returns": repr(res)[:80]}
     return {"model": _k(res[0]), "f_unc": _k(res[1]), "hdd_load": _k(res[2]), "cdd_load": _k(res[3]), "get_full_model_x": rec.gx, "get_smooth_coeffs": rec.sm, "full_model": rec.fm}
